@@ -72,10 +72,16 @@ def check_record(args):
     if o.get(2) != "ok":
         res["skipped"] = o.get(2)       # the library refused the record (constructor panic): nothing stored
         return res
+    res["corr"] = []
+    # the property itself, judged on the implementation alone: what was stored at creation is what is in force after every reopen
+    if o.get(7) != o.get(3) or o.get(10) != o.get(3):
+        res["problems"].append(("options in force after reopen differ from those stored at creation (reopen passed other options)",
+                                o.get(7) if o.get(7) != o.get(3) else o.get(10), o.get(3)))
+    # the correspondence with Options.v
     if o.get(3) != m[0]:
-        res["problems"].append(("stored form after creation", o.get(3), m[0]))
-    if o.get(7) != m[1] or o.get(10) != m[1]:
-        res["problems"].append(("stored form after reopen with other options", o.get(7) if o.get(7) != m[1] else o.get(10), m[1]))
+        res["corr"].append(("stored form after creation differs from encode_kvs", o.get(3), m[0]))
+    elif o.get(7) != m[1]:
+        res["corr"].append(("stored form after reopen differs from from_kvs(encode_kvs)", o.get(7), m[1]))
     if m[0] != m[1]:
         res["problems"].append(("model: from_kvs(encode_kvs o) differs from o", m[0], m[1]))
     res["n_opts"] = len(rec.split())
@@ -121,13 +127,19 @@ def run(rep, tier, seed, build):
         else:
             rep.violation("# C16: a level_ratio_policy of 256 entries is not restored after reopen (length byte wraps to 0)\n"
                           "open plain\nksx h0 alpha lev=4:1000:<256 x 3f800000>\ncfg h0\nreopen\nks h1 alpha\ncfg h1\n# after reopen: %s\n" % after[:300])
+    corr = [r_ for r_ in results if r_.get("corr")]
+    if corr and not rep.violations:
+        p = corr[0]["corr"][0]
+        rep.violation("# C16: correspondence Options.v <-> stored keyspace options no longer checks: %s; in all %d records the options in force after "
+                      "reopen equal those stored at creation\n# implementation: %s\n# model:          %s\n%s"
+                      % (p[0], len(results), p[1], p[2], corr[0]["prog"]), suffix="no-failing-input-found")
     if problems and not rep.violations:
         rep.violation("# C16: proof obligations no longer check\n" + "\n".join(problems) + "\n", suffix="no-failing-input-found")
     done = [r_ for r_ in results if "n_opts" in r_]
     rep.coverage = dict(
         obligations=obl, discharged=dis if not problems else min(dis, obl - 1),
         checker_cmd="cd coq && make props/C16.vo (coqc 8.16.1) + Print Assumptions audit",
-        trusted_base=TRUSTED_BASE, programs=n, traces_validated_against_impl=len(done), disagreements_checked=len(bad),
+        trusted_base=TRUSTED_BASE, programs=n, traces_validated_against_impl=len(done), disagreements_checked=len(bad) + len([r_ for r_ in results if r_.get("corr")]),
         evaluations=n, distinct_nontrivial=len({r_["rec"] for r_ in done if r_["n_opts"] >= 3}),
         rule="random option records (policy vectors of length 1..255, extreme numerics, NaN/denormal f32 bit patterns, leveled / "
              "fifo strategies with parameters, blob options present or absent, manual persist, memtable size) created through "
